@@ -41,6 +41,7 @@ pub fn map_op(op: &Op, f: &dyn Fn(&P) -> P, slot_off: u8) -> Op {
         Op::EnvDanglingSymlink(p) => Op::EnvDanglingSymlink(f(p)),
         Op::EnvRemoveBehind(p) => Op::EnvRemoveBehind(f(p)),
         Op::EnvSpecial(p, k) => Op::EnvSpecial(f(p), *k),
+        Op::Reopen => Op::Reopen,
     }
 }
 
